@@ -994,4 +994,32 @@ func c09Call2(c *Ctx) {
 				map[string]interface{}{"text": c09c2Header + t}, rp, repsB[i])
 		}
 	}
+
+	// ================= C. accepted texts: the hypotheses of Props.C09 (AcceptedCallTexts) =================
+	// evaluated on what the REAL parser returned for every accepted printed / respelled / near-miss text
+	var hEncs, hTexts []string
+	addAccepted := func(dump, text string, encs, texts *[]string) {
+		if strings.HasPrefix(dump, "some ") {
+			*encs = append(*encs, strings.TrimPrefix(dump, "some "))
+			*texts = append(*texts, text)
+		}
+	}
+	for i := range cases {
+		addAccepted(c09c2Dump(texts[i]), texts[i], &hEncs, &hTexts)
+		addAccepted(realRe[i], respelled[i], &hEncs, &hTexts)
+	}
+	for _, t := range c09c2NearMisses {
+		addAccepted(c09c2Dump(t), t, &hEncs, &hTexts)
+	}
+	c09AcceptedHyps(c, "call2", "C09.call2hyps", hEncs, hTexts)
+	var hbEncs, hbTexts []string
+	for i := range bodies {
+		addAccepted(c09c2DumpBody(btexts[i]), c09c2Header+btexts[i], &hbEncs, &hbTexts)
+		addAccepted(brealRe[i], c09c2Header+bres[i], &hbEncs, &hbTexts)
+	}
+	for _, t := range c09c2BodyNearMisses {
+		addAccepted(c09c2DumpBody(t), c09c2Header+t, &hbEncs, &hbTexts)
+	}
+	c09AcceptedHyps(c, "body", "C09.bodyhyps", hbEncs, hbTexts)
+	c09CallTextProbes(c)
 }
